@@ -41,7 +41,21 @@ fn mutate(base: &[u8], rng: &mut Rng) -> Vec<u8> {
             4 => {
                 let p = rng.below(v.len() + 1);
                 let ins: &[u8] = *rng.pick(&[
-                    &b"<"[..], b">", b"&", b"]]>", b"]]>]]>", b"\xff", b"\xc3", b"<!--", b"<![CDATA[", b"<?xml?>", b"&#0;", b"\"", b"'", b"</rpc-reply>", b"<rpc-reply>",
+                    &b"<"[..],
+                    b">",
+                    b"&",
+                    b"]]>",
+                    b"]]>]]>",
+                    b"\xff",
+                    b"\xc3",
+                    b"<!--",
+                    b"<![CDATA[",
+                    b"<?xml?>",
+                    b"&#0;",
+                    b"\"",
+                    b"'",
+                    b"</rpc-reply>",
+                    b"<rpc-reply>",
                 ]);
                 for (i, x) in ins.iter().enumerate() {
                     v.insert(p + i, *x);
@@ -50,14 +64,29 @@ fn mutate(base: &[u8], rng: &mut Rng) -> Vec<u8> {
             5 => {
                 // huge number in place of the first digit run
                 if let Some(a) = v.iter().position(|c| c.is_ascii_digit()) {
-                    let b = v[a..].iter().position(|c| !c.is_ascii_digit()).map(|x| a + x).unwrap_or(v.len());
-                    let big = *rng.pick(&[&b"99999999999999999999999999999999999999"[..], b"18446744073709551616", b"-1", b"4294967296", b"0", b"1e9", b" 7 "]);
+                    let b = v[a..]
+                        .iter()
+                        .position(|c| !c.is_ascii_digit())
+                        .map(|x| a + x)
+                        .unwrap_or(v.len());
+                    let big = *rng.pick(&[
+                        &b"99999999999999999999999999999999999999"[..],
+                        b"18446744073709551616",
+                        b"-1",
+                        b"4294967296",
+                        b"0",
+                        b"1e9",
+                        b" 7 ",
+                    ]);
                     v.splice(a..b, big.iter().copied());
                 }
             }
             6 => {
                 // wrong namespace
-                let s = String::from_utf8_lossy(&v).replace("urn:ietf:params:xml:ns:netconf:base:1.0", "urn:example:other");
+                let s = String::from_utf8_lossy(&v).replace(
+                    "urn:ietf:params:xml:ns:netconf:base:1.0",
+                    "urn:example:other",
+                );
                 v = s.into_bytes();
             }
             7 => {
@@ -147,12 +176,24 @@ fn long_variants(seed: &str, big: bool) -> Vec<Vec<u8>> {
 
 fn seeds_reply(kind: &str) -> Vec<String> {
     use reply::Child::*;
-    let e = |sev: &'static str| Err { ty: "protocol", tag: "operation-failed", sev, extra: 15 };
+    let e = |sev: &'static str| Err {
+        ty: "protocol",
+        tag: "operation-failed",
+        sev,
+        extra: 15,
+    };
     let docs: Vec<Vec<reply::Child>> = match kind {
         "empty" => vec![vec![Ok], vec![e("error"), e("warning")], vec![Comment, Ok]],
-        "data" => vec![vec![Data("<configuration><a>1</a></configuration>")], vec![e("error")]],
+        "data" => vec![
+            vec![Data("<configuration><a>1</a></configuration>")],
+            vec![e("error")],
+        ],
         "bare" => vec![vec![], vec![e("error")]],
-        _ => vec![vec![Results(vec![Ok])], vec![Results(vec![e("warning"), Ok])], vec![Results(vec![e("error"), Count(1)])]],
+        _ => vec![
+            vec![Results(vec![Ok])],
+            vec![Results(vec![e("warning"), Ok])],
+            vec![Results(vec![e("error"), Count(1)])],
+        ],
     };
     docs.iter().map(|d| reply::doc_xml("1", d)).collect()
 }
@@ -194,13 +235,22 @@ pub fn main(opts: &Opts) {
             }
         }
     }
-    let results = run_pool_watchdog(jobs.clone(), 16, Duration::from_secs(8), "timeout".to_string(), |(kind, bytes)| {
-        let r = std::panic::catch_unwind(AssertUnwindSafe(|| {
-            let rt = tokio::runtime::Builder::new_current_thread().enable_all().build().unwrap();
-            rt.block_on(outcome_bytes(&kind, bytes))
-        }));
-        r.unwrap_or_else(|_| "panic".to_string())
-    });
+    let results = run_pool_watchdog(
+        jobs.clone(),
+        16,
+        Duration::from_secs(8),
+        "timeout".to_string(),
+        |(kind, bytes)| {
+            let r = std::panic::catch_unwind(AssertUnwindSafe(|| {
+                let rt = tokio::runtime::Builder::new_current_thread()
+                    .enable_all()
+                    .build()
+                    .unwrap();
+                rt.block_on(outcome_bytes(&kind, bytes))
+            }));
+            r.unwrap_or_else(|_| "panic".to_string())
+        },
+    );
     for ((kind, bytes), out) in jobs.iter().zip(results) {
         let case = format!("reply;{kind};{}", hex(bytes));
         let class = out.split(':').next().unwrap().to_string();
@@ -210,44 +260,90 @@ pub fn main(opts: &Opts) {
         };
         sink.direct(&case, verdict);
         if let Ok(text) = std::str::from_utf8(bytes) {
-            sink.corr(&case, format!("xml reply-for fixed {kind} 1 {}", xmltok::tokenize(text)), out.clone());
+            sink.corr(
+                &case,
+                format!("xml reply-for fixed {kind} 1 {}", xmltok::tokenize(text)),
+                out.clone(),
+            );
             sink.count("reply.utf8");
         } else {
             sink.count("reply.not-utf8");
         }
         sink.count(&format!("reply.outcome.{class}"));
         if sink.samples.len() < 4 && bytes.len() < 120 {
-            sink.sample(format!("{kind}: {:?} -> {out}", String::from_utf8_lossy(bytes)));
+            sink.sample(format!(
+                "{kind}: {:?} -> {out}",
+                String::from_utf8_lossy(bytes)
+            ));
         }
     }
     // ---- scenario A': mutated hello ---------------------------------------------------------------
-    let hello_seed = mt::hello(&[mt::CAP_BASE10, mt::CAP_BASE11, "urn:ietf:params:netconf:capability:url:1.0?scheme=http,ftp", mt::CAP_JUNOS], 4242);
-    let mut hjobs: Vec<Vec<u8>> = (0..hello_seed.len()).map(|p| hello_seed.as_bytes()[..p].to_vec()).collect();
+    let hello_seed = mt::hello(
+        &[
+            mt::CAP_BASE10,
+            mt::CAP_BASE11,
+            "urn:ietf:params:netconf:capability:url:1.0?scheme=http,ftp",
+            mt::CAP_JUNOS,
+        ],
+        4242,
+    );
+    let mut hjobs: Vec<Vec<u8>> = (0..hello_seed.len())
+        .map(|p| hello_seed.as_bytes()[..p].to_vec())
+        .collect();
     for _ in 0..n {
         hjobs.push(mutate(hello_seed.as_bytes(), &mut rng));
     }
     hjobs.extend(long_variants(&hello_seed, true));
-    let hres = run_pool_watchdog(hjobs.clone(), 16, Duration::from_secs(8), "timeout".to_string(), |bytes| {
-        let r = std::panic::catch_unwind(AssertUnwindSafe(|| {
-            let rt = tokio::runtime::Builder::new_current_thread().enable_all().build().unwrap();
-            rt.block_on(async {
-                let (t, peer) = mt::new();
-                peer.deliver(bytes);
-                match tokio::time::timeout(Duration::from_secs(5), netconf::Session::verif_new(t)).await {
-                    Err(_) => "timeout".to_string(),
-                    Ok(r) => hello::show_session(&r),
-                }
-            })
-        }));
-        r.unwrap_or_else(|_| "panic".to_string())
-    });
+    let hres = run_pool_watchdog(
+        hjobs.clone(),
+        16,
+        Duration::from_secs(8),
+        "timeout".to_string(),
+        |bytes| {
+            let r = std::panic::catch_unwind(AssertUnwindSafe(|| {
+                let rt = tokio::runtime::Builder::new_current_thread()
+                    .enable_all()
+                    .build()
+                    .unwrap();
+                rt.block_on(async {
+                    let (t, peer) = mt::new();
+                    peer.deliver(bytes);
+                    match tokio::time::timeout(
+                        Duration::from_secs(5),
+                        netconf::Session::verif_new(t),
+                    )
+                    .await
+                    {
+                        Err(_) => "timeout".to_string(),
+                        Ok(r) => hello::show_session(&r),
+                    }
+                })
+            }));
+            r.unwrap_or_else(|_| "panic".to_string())
+        },
+    );
     for (bytes, out) in hjobs.iter().zip(hres) {
         let case = format!("hello;{}", hex(bytes));
         let class = out.split(' ').next().unwrap().to_string();
-        sink.direct(&case, if class == "ok" || class == "err" { "ok".into() } else { format!("violation {class}-on-garbage-hello") });
+        sink.direct(
+            &case,
+            if class == "ok" || class == "err" {
+                "ok".into()
+            } else {
+                format!("violation {class}-on-garbage-hello")
+            },
+        );
         if let Ok(text) = std::str::from_utf8(bytes) {
             let spans = xmltok::spans(text);
-            sink.corr(&case, format!("xml hello fixed 0 {} {}", xmltok::uri_oracle(&spans), xmltok::tokenize(text)), out.clone());
+            sink.corr(
+                &case,
+                format!(
+                    "xml hello fixed 0 {} {}",
+                    xmltok::uri_oracle(&spans),
+                    xmltok::tokenize(text)
+                ),
+                out.clone(),
+            );
         }
         sink.count(&format!("hello.outcome.{class}"));
     }
@@ -262,43 +358,112 @@ pub fn main(opts: &Opts) {
         rng.shuffle(&mut order);
         bjobs.push((k, garbage, order));
     }
-    let bres = run_pool_watchdog(bjobs.clone(), 16, Duration::from_secs(12), vec!["timeout".to_string()], |(k, garbage, order)| {
-        let r = std::panic::catch_unwind(AssertUnwindSafe(|| {
-            let rt = tokio::runtime::Builder::new_current_thread().enable_all().build().unwrap();
-            rt.block_on(async {
-                let (s, peer) = mt::session_with_hello(&mt::hello(&[mt::CAP_BASE10], 4)).await;
-                let mut s = s.unwrap();
-                let mut futs = vec![];
-                for _ in 0..3 {
-                    futs.push(Box::pin(s.rpc::<Get, _>(|b| b.finish()).await.unwrap()));
-                }
-                let sent = peer.sent();
-                let ids: Vec<String> = sent[1..].iter().map(|m| mt::message_id_of(m).unwrap()).collect();
-                for &i in &order {
-                    if i == k {
-                        // keep the garbage addressed to request k if it still carries "message-id=\"1\""
-                        let g = String::from_utf8_lossy(&garbage).replace("message-id=\"1\"", &format!("message-id=\"{}\"", ids[k]));
-                        if std::str::from_utf8(&garbage).is_ok() { peer.deliver(g) } else { peer.deliver(garbage.clone()) }
-                    } else {
-                        peer.deliver(reply::doc_xml(&ids[i], &[reply::Child::Data(["<a/>", "<b/>", "<c/>"][i])]));
+    // frame-level anomalies in place of the garbage: every frame is a well-formed reply, but it is a
+    // second reply for another outstanding request, a reply for no request at all, or request k's own
+    // reply sent twice — every k × every arrival order (exhaustive)
+    for kind in ["@dup-other", "@unknown-id", "@dup-self"] {
+        for k in 0..3usize {
+            for order in [
+                [0usize, 1, 2],
+                [0, 2, 1],
+                [1, 0, 2],
+                [1, 2, 0],
+                [2, 0, 1],
+                [2, 1, 0],
+            ] {
+                bjobs.push((k, kind.as_bytes().to_vec(), order.to_vec()));
+            }
+        }
+    }
+    let bres = run_pool_watchdog(
+        bjobs.clone(),
+        16,
+        Duration::from_secs(12),
+        vec!["timeout".to_string()],
+        |(k, garbage, order)| {
+            let r = std::panic::catch_unwind(AssertUnwindSafe(|| {
+                let rt = tokio::runtime::Builder::new_current_thread()
+                    .enable_all()
+                    .build()
+                    .unwrap();
+                rt.block_on(async {
+                    let (s, peer) = mt::session_with_hello(&mt::hello(&[mt::CAP_BASE10], 4)).await;
+                    let mut s = s.unwrap();
+                    let mut futs = vec![];
+                    for _ in 0..3 {
+                        futs.push(Box::pin(s.rpc::<Get, _>(|b| b.finish()).await.unwrap()));
                     }
-                }
-                peer.close();
-                let mut outs = vec![];
-                for f in futs.iter_mut() {
-                    outs.push(match tokio::time::timeout(Duration::from_secs(5), f).await {
-                        Err(_) => "timeout".to_string(),
-                        Ok(Ok(v)) => format!("data:{v}"),
-                        Ok(Err(_)) => "err".to_string(),
-                    });
-                }
-                outs
-            })
-        }));
-        r.unwrap_or_else(|_| vec!["panic".to_string()])
-    });
+                    let sent = peer.sent();
+                    let ids: Vec<String> = sent[1..]
+                        .iter()
+                        .map(|m| mt::message_id_of(m).unwrap())
+                        .collect();
+                    for &i in &order {
+                        if i == k && garbage.starts_with(b"@") {
+                            let other = (k + 1) % 3;
+                            match garbage.as_slice() {
+                                b"@dup-other" => peer.deliver(reply::doc_xml(
+                                    &ids[other],
+                                    &[reply::Child::Data(["<a/>", "<b/>", "<c/>"][other])],
+                                )),
+                                b"@unknown-id" => peer.deliver(reply::doc_xml(
+                                    "999999",
+                                    &[reply::Child::Data("<z/>")],
+                                )),
+                                _ => {
+                                    peer.deliver(reply::doc_xml(
+                                        &ids[k],
+                                        &[reply::Child::Data(["<a/>", "<b/>", "<c/>"][k])],
+                                    ));
+                                    peer.deliver(reply::doc_xml(
+                                        &ids[k],
+                                        &[reply::Child::Data(["<a/>", "<b/>", "<c/>"][k])],
+                                    ));
+                                }
+                            }
+                        } else if i == k {
+                            // keep the garbage addressed to request k if it still carries "message-id=\"1\""
+                            let g = String::from_utf8_lossy(&garbage)
+                                .replace("message-id=\"1\"", &format!("message-id=\"{}\"", ids[k]));
+                            if std::str::from_utf8(&garbage).is_ok() {
+                                peer.deliver(g)
+                            } else {
+                                peer.deliver(garbage.clone())
+                            }
+                        } else {
+                            peer.deliver(reply::doc_xml(
+                                &ids[i],
+                                &[reply::Child::Data(["<a/>", "<b/>", "<c/>"][i])],
+                            ));
+                        }
+                    }
+                    peer.close();
+                    let mut outs = vec![];
+                    for f in futs.iter_mut() {
+                        outs.push(
+                            match tokio::time::timeout(Duration::from_secs(5), f).await {
+                                Err(_) => "timeout".to_string(),
+                                Ok(Ok(v)) => format!("data:{v}"),
+                                Ok(Err(_)) => "err".to_string(),
+                            },
+                        );
+                    }
+                    outs
+                })
+            }));
+            r.unwrap_or_else(|_| vec!["panic".to_string()])
+        },
+    );
     for ((k, garbage, order), outs) in bjobs.iter().zip(bres) {
-        let case = format!("multi;{k};{};{}", hex(garbage), order.iter().map(|o| o.to_string()).collect::<Vec<_>>().join(""));
+        let case = format!(
+            "multi;{k};{};{}",
+            hex(garbage),
+            order
+                .iter()
+                .map(|o| o.to_string())
+                .collect::<Vec<_>>()
+                .join("")
+        );
         let mut verdict = "ok".to_string();
         if outs.iter().any(|o| o == "panic") {
             verdict = "violation panic-multi".into();
@@ -310,7 +475,11 @@ pub fn main(opts: &Opts) {
             let mut bad = 0;
             for i in 0..3 {
                 if i != *k && outs[i] != format!("data:{}", ["<a/>", "<b/>", "<c/>"][i]) {
-                    if outs[i] == "err" { bad += 1 } else { verdict = "violation wrong-reply-delivered".into(); }
+                    if outs[i] == "err" {
+                        bad += 1
+                    } else {
+                        verdict = "violation wrong-reply-delivered".into();
+                    }
                 }
             }
             if bad > 1 {
